@@ -38,7 +38,19 @@ var commonAssume = []string{
 	"interleavings in which a goroutine is parked while it holds a driver mutex are not explored (synctest limitation)",
 }
 
+// crashProperty: a child killed by a panic inside a run of that scenario is a violation
+// of this property (checks of the scenario's other properties only note it).
+var crashProperty = map[string]string{
+	"mux": "C06", "wr": "C07", "ids": "C08", "pick": "C11", "wire": "C04", "byz": "C05", "retry": "C13", "prep": "C14",
+	"page": "C15", "topo": "C16", "life": "C17", "uuid": "C19", "sec": "C20",
+}
+
+var wireRule = "runs of scenario wire (generated logical requests and responses on a connection negotiated per run: protocol 1-5 x compressor x advertised set); distinct = distinct canonical-log fingerprint; non-trivial = at least one request/response variation beyond the defaults was drawn and at least one operation completed"
+
 var properties = map[string]*propSpec{
+	"C03": {Level: "exploration", Scenarios: []scenRef{{Name: "wire", quickS: 20, thoroughS: 600, Extra: []string{"-sim.nofaultevery=0"}}}, Rule: wireRule},
+	"C04": {Level: "exploration", Scenarios: []scenRef{{Name: "wire", quickS: 20, thoroughS: 600, Extra: []string{"-sim.nofaultevery=0"}}}, Rule: wireRule},
+	"C18": {Level: "exploration", Scenarios: []scenRef{{Name: "wire", quickS: 20, thoroughS: 600, Extra: []string{"-sim.nofaultevery=0"}}}, Rule: wireRule},
 	"C01": {Level: "exploration", Scenarios: []scenRef{{Name: "mux", quickS: 20, thoroughS: 600}}, CrashProperty: "C01",
 		Rule: "runs of scenario mux; distinct = distinct canonical-log fingerprint; non-trivial = at least one injected fault or park fired and at least one operation completed"},
 	"C07": {Level: "exploration", Scenarios: []scenRef{{Name: "wr", quickS: 20, thoroughS: 600}}, CrashProperty: "C07",
